@@ -51,7 +51,9 @@ def refactorings():
         k = min(len(syms), r.randint(1, 3))
         chosen = r.sample(syms, k)
         mapping = {s: f"{s}_RN{i}" for i, s in enumerate(chosen)}
-        if len(chosen) >= 2 and r.random() < 0.4:  # a swap
+        if len(chosen) >= 2 and r.random() < 0.4 and not (_NM_RESERVED.match(chosen[0]) or _NM_RESERVED.match(chosen[1])):
+            # a swap (not of PREDPP-reserved names: the NONMEM code generator re-creates those - S1, ALAG1, F1 ... - by
+            # name, and the docstring of rename_symbols leaves clashes with existing names to the caller)
             mapping = {chosen[0]: chosen[1], chosen[1]: chosen[0]}
         return pm.rename_symbols(m, mapping), mapping
 
